@@ -73,7 +73,7 @@ type ltrans struct {
 }
 
 func (t ltrans) obsString() string {
-	return fmt.Sprintf("%v|%s|%s|rel=%v,%v,%v,%v|%s", t.st, t.key, t.o.class, t.o.released, t.o.atDeath, t.o.failFired, t.o.durable, violSigs(t.o.terminal))
+	return fmt.Sprintf("%v|%s|%s|rel=%v,%v,%v,%v|%s", t.st, t.key, t.o.class, t.o.released, t.o.atDeath, t.o.failFired, t.o.durable, violSigs(t.o.terminal)) + fmt.Sprintf("|torn=%v", t.o.tornRestart)
 }
 
 type lstate struct {
@@ -179,6 +179,13 @@ func (c *ctx) expand(w *worker, initFault string, h []step, wantKey string, self
 		for _, p := range probe.points {
 			group(q, "crash@"+p, []step{{Req: q, Fault: "crash@" + p}})
 			group(q, "fail@"+p, []step{{Req: q, Fault: "fail@" + p}, {Req: q, Fault: "fail@" + p, Restart: true}})
+		}
+		// torn-file family: the request completes (signed or refused), the host crashes and leaves the
+		// signer file torn, the node is started again
+		if probe.panicV == nil {
+			for _, p := range tearPatterns {
+				group(q, "none", []step{{Req: q, Fault: "tear@" + p}})
+			}
 		}
 	}
 	if selfCheck > 0 {
@@ -356,21 +363,25 @@ type mon struct {
 	hiND      int8
 	usedFail  bool
 	usedDeath bool
+	usedTear  bool
 }
 
 func (m mon) code() int64 {
 	x := int64(m.set[0]) + 5*int64(m.set[1]) + 25*int64(m.hi) + 25*13*int64(m.hiND)
-	x *= 4
+	x *= 8
 	if m.usedFail {
 		x |= 1
 	}
 	if m.usedDeath {
 		x |= 2
 	}
+	if m.usedTear {
+		x |= 4
+	}
 	return x
 }
 
-const monSpace = 25 * 13 * 4 * 4
+const monSpace = 25 * 13 * 4 * 8
 
 type pviol struct {
 	sig   map[string]string
@@ -400,7 +411,7 @@ func monStep(m mon, slot int, slotIdx map[int]int, ri int, o *obs) (mon, []map[s
 			case o.atDeath:
 				nd = ndDeath
 			default:
-				nd = faultLabel(m.usedFail, false)
+				nd = faultLabel(m.usedFail, false, false)
 			}
 		}
 		switch {
@@ -412,7 +423,7 @@ func monStep(m mon, slot int, slotIdx map[int]int, ri int, o *obs) (mon, []map[s
 				if other-1 != ndDurable {
 					out = append(out, mkSig("released-without-durable-record", int(other-1), "conflicting-signatures"))
 				} else {
-					out = append(out, mkSig("conflicting-signatures", faultLabel(m.usedFail, m.usedDeath), "none"))
+					out = append(out, mkSig("conflicting-signatures", faultLabel(m.usedFail, m.usedTear, m.usedDeath), "none"))
 				}
 			}
 			if m.set[r.Blk] == 0 {
@@ -420,7 +431,7 @@ func monStep(m mon, slot int, slotIdx map[int]int, ri int, o *obs) (mon, []map[s
 					if m.hiND != ndDurable {
 						out = append(out, mkSig("released-without-durable-record", int(m.hiND), "hrs-regression"))
 					} else {
-						out = append(out, mkSig("hrs-regression", faultLabel(m.usedFail, m.usedDeath), "none"))
+						out = append(out, mkSig("hrs-regression", faultLabel(m.usedFail, m.usedTear, m.usedDeath), "none"))
 					}
 				}
 				m.set[r.Blk] = int8(1 + nd)
@@ -438,6 +449,9 @@ func monStep(m mon, slot int, slotIdx map[int]int, ri int, o *obs) (mon, []map[s
 	}
 	if o.restartAfter {
 		m.usedDeath = true
+	}
+	if o.tornRestart {
+		m.usedTear = true
 	}
 	return m, out
 }
@@ -460,7 +474,24 @@ type parentRef struct {
 
 // product explores, for every slot, all histories of length ≤ maxLen (maxLen<0:
 // until no new product state appears) over the extracted transition system.
-func product(l *lts, roots []int, maxLen int, reqOK []bool) *productResult {
+// stepFilter restricts the steps of a search (cross-checks): a set of requests, with or without the
+// torn-file variants.  nil = every step.
+type stepFilter struct {
+	reqOK  []bool
+	noTear bool
+}
+
+func (f *stepFilter) ok(st step) bool {
+	if f == nil {
+		return true
+	}
+	if f.reqOK != nil && !f.reqOK[st.Req] {
+		return false
+	}
+	return !(f.noTear && strings.HasPrefix(st.Fault, "tear@"))
+}
+
+func product(l *lts, roots []int, maxLen int, flt *stepFilter) *productResult {
 	pr := &productResult{classCount: map[string]int{}, first: map[string][]pviol{}, parents: make([]map[int64]parentRef, len(slotList)), closed: true}
 	slotIdx := map[int]int{}
 	for i, s := range slotList {
@@ -504,7 +535,7 @@ func product(l *lts, roots []int, maxLen int, reqOK []bool) *productResult {
 					pe := enc(p)
 					for ti := range st.trans {
 						tr := &st.trans[ti]
-						if reqOK != nil && !reqOK[tr.st.Req] {
+						if !flt.ok(tr.st) {
 							continue
 						}
 						so.transitions++
@@ -571,7 +602,7 @@ func product(l *lts, roots []int, maxLen int, reqOK []bool) *productResult {
 // over the extracted transitions, violation raised by its last step) — by
 // dynamic programming over the product states, without deduplicating paths.
 // The un-deduplicated enumeration must arrive at exactly these numbers.
-func countViolations(l *lts, root int, maxLen int, reqOK []bool) map[string]int {
+func countViolations(l *lts, root int, maxLen int, flt *stepFilter) map[string]int {
 	slotIdx := map[int]int{}
 	for i, s := range slotList {
 		slotIdx[s] = i
@@ -589,7 +620,7 @@ func countViolations(l *lts, root int, maxLen int, reqOK []bool) map[string]int 
 				st := l.states[p.sid]
 				for ti := range st.trans {
 					tr := &st.trans[ti]
-					if reqOK != nil && !reqOK[tr.st.Req] {
+					if !flt.ok(tr.st) {
 						continue
 					}
 					m2, sigs := monStep(p.m, slot, slotIdx, tr.st.Req, &tr.o)
@@ -652,12 +683,12 @@ type fullResult struct {
 	exact       map[string]int // (sequence whose last fault was reached, violation of its last step) pairs per class
 }
 
-// fullEnum runs every sequence of length ≤ maxDepth over 24 requests × 12 fault
+// fullEnum runs every sequence of length ≤ maxDepth over 24 requests × 18 fault
 // variants from scratch with the full-ledger oracle, never merging anything.
 // A sequence whose last armed fault is not reached is executed (it behaves like
 // the variant without the fault) but not extended: its extensions are the
 // extensions of that other variant.
-func (c *ctx) fullEnum(initFault string, maxDepth int, reqList []int) *fullResult {
+func (c *ctx) fullEnum(initFault string, maxDepth int, reqList []int, flt *stepFilter) *fullResult {
 	fr := &fullResult{sigClasses: map[string]int{}, exact: map[string]int{}}
 	cum := map[string]bool{}
 	root := c.withWorker(func(w *worker) pathResult { return c.runPath(w, kase{InitFault: initFault}) })
@@ -676,6 +707,9 @@ func (c *ctx) fullEnum(initFault string, maxDepth int, reqList []int) *fullResul
 		for _, h := range level {
 			for _, q := range reqList {
 				for _, v := range allVariants(q) {
+					if !flt.ok(v) {
+						continue
+					}
 					paths = append(paths, append(append(make([]step, 0, len(h)+1), h...), v))
 				}
 			}
@@ -775,7 +809,12 @@ func main() {
 		if err := os.MkdirAll(d, 0755); err != nil {
 			core.Fatal("mkdir: %v", err)
 		}
-		w := &worker{id: i, dir: d, path: filepath.Join(d, "priv_validator.json")}
+		pd := d + "-probe"
+		os.RemoveAll(pd)
+		if err := os.MkdirAll(pd, 0755); err != nil {
+			core.Fatal("mkdir: %v", err)
+		}
+		w := &worker{id: i, dir: d, path: filepath.Join(d, "priv_validator.json"), probe: filepath.Join(pd, "priv_validator.json")}
 		workersByPath[w.path] = w
 		c.pool <- w
 	}
@@ -783,6 +822,9 @@ func main() {
 	verifhook.SetFailCallback(onFail)
 
 	if run.ReplayPath != "" {
+		if replaySched(run) {
+			return
+		}
 		var k kase
 		if err := run.ReplayCase(&k); err != nil {
 			core.Fatal("cannot load replay: %v", err)
@@ -806,6 +848,9 @@ func main() {
 		os.RemoveAll(base)
 		run.Finish(nil, nil)
 	}
+
+	// part (b) runs as a subprocess next to part (a); its result is merged at the end
+	startSchedPart(run)
 
 	// --- sanity: the hooks are reached by the signer's durable write; the machinery is deterministic
 	probe := kase{Steps: withNames([]step{{Req: 2, Fault: "none"}, {Req: 3, Fault: "crash@rename"}, {Req: 5, Fault: "fail@new", Restart: true}, {Req: 4, Fault: "none"}})}
@@ -928,9 +973,9 @@ func main() {
 	// history of a logic violation contained; the reported signature keeps site, kind and fault only, the
 	// case shown first is the one with the gravest consequence, and a logic violation (conflicting
 	// signatures or regression between durably recorded releases) is reported under the weakest fault
-	// class in which it occurs (none < process-death < write-error).
+	// class in which it occurs (none < process-death < torn-file < write-error).
 	conseqRank := map[string]int{"conflicting-signatures": 0, "hrs-regression": 1, "none": 2}
-	faultRank := map[string]int{"none": 0, "process-death": 1, "write-error": 2}
+	faultRank := map[string]int{"none": 0, "process-death": 1, "torn-file": 2, "write-error": 3}
 	type inst struct {
 		v    pviol
 		rank int
@@ -976,6 +1021,7 @@ func main() {
 		name   string
 		length int
 		reqs   []int
+		noTear bool
 	}
 	var all24, h1, h1r0 []int
 	for i, r := range reqs {
@@ -988,11 +1034,13 @@ func main() {
 		}
 	}
 	_ = h1
-	cfgs := []crossCfg{{"length<=1, all 24 requests", 1, all24}, {"length<=2, the 6 requests of height 1 round 0", 2, h1r0}}
+	cfgs := []crossCfg{{"length<=1, all 24 requests, all fault variants", 1, all24, false}, {"length<=2, the 6 requests of height 1 round 0, all fault variants", 2, h1r0, false}}
 	if !run.Quick() {
 		// proposal A, prevote A, prevote B, precommit A at (H1,R0): all three step types, one conflicting pair
 		four := []int{h1r0[0], h1r0[2], h1r0[3], h1r0[4]}
-		cfgs = []crossCfg{{"length<=2, all 24 requests", 2, all24}, {"length<=3, proposal A / prevote A / prevote B / precommit A at height 1 round 0", 3, four}}
+		cfgs = []crossCfg{{"length<=2, all 24 requests, fault variants without the torn-file family", 2, all24, true},
+			{"length<=3, proposal A / prevote A / prevote B / precommit A at height 1 round 0, fault variants without the torn-file family", 3, four, true},
+			{"length<=2, the 6 requests of height 1 round 0, all fault variants", 2, h1r0, false}}
 	}
 	if fullLen == 0 {
 		cfgs = nil
@@ -1004,11 +1052,12 @@ func main() {
 		for _, cfg := range cfgs {
 			tFull := time.Now()
 			c2 := &ctx{run: run, pool: c.pool, classes: core.NewCounter(), samples: core.NewSampler(1, 0), tableSigs: c.tableSigs}
-			fr := c2.fullEnum(root.init, cfg.length, cfg.reqs)
 			reqOK := make([]bool, nReq)
 			for _, q := range cfg.reqs {
 				reqOK[q] = true
 			}
+			flt := &stepFilter{reqOK: reqOK, noTear: cfg.noTear}
+			fr := c2.fullEnum(root.init, cfg.length, cfg.reqs, flt)
 			// states reachable from this root within d steps in the extracted transition system
 			reach := map[int]bool{rootID: true}
 			fr0 := []int{rootID}
@@ -1024,7 +1073,7 @@ func main() {
 				var nx []int
 				for _, id := range fr0 {
 					for _, tr := range l.states[id].trans {
-						if reqOK[tr.st.Req] && tr.succ >= 0 && !reach[tr.succ] {
+						if flt.ok(tr.st) && tr.succ >= 0 && !reach[tr.succ] {
 							reach[tr.succ] = true
 							nx = append(nx, tr.succ)
 						}
@@ -1032,7 +1081,7 @@ func main() {
 				}
 				fr0 = nx
 			}
-			ref := product(l, []int{rootID}, cfg.length, reqOK)
+			ref := product(l, []int{rootID}, cfg.length, flt)
 			ka := sortedKeys(ref.classCount)
 			var kb []string
 			for _, k := range sortedKeys(fr.sigClasses) {
@@ -1044,7 +1093,7 @@ func main() {
 			if strings.Join(ka, "\n") != strings.Join(kb, "\n") {
 				core.Fatal("deduplicated search and full enumeration (%s) find different violation classes:\n dedup: %v\n full:  %v", cfg.name, ka, kb)
 			}
-			exact := countViolations(l, rootID, cfg.length, reqOK)
+			exact := countViolations(l, rootID, cfg.length, flt)
 			for _, k := range ka {
 				if exact[k] != fr.exact[k] {
 					core.Fatal("deduplicated search and full enumeration (%s) count different numbers of violating sequences for %s: %d vs %d", cfg.name, k, exact[k], fr.exact[k])
@@ -1067,7 +1116,7 @@ func main() {
 		}
 	}
 
-	byFault := map[string]int{"none": 0, "process-death": 0, "write-error": 0}
+	byFault := map[string]int{"none": 0, "process-death": 0, "torn-file": 0, "write-error": 0}
 	allClasses := map[string]int{}
 	for sg, n := range pr.classCount {
 		allClasses[sg] += n
@@ -1096,7 +1145,7 @@ func main() {
 	}
 	os.RemoveAll(base)
 	pprof.StopCPUProfile()
-	run.Finish(core.Coverage{
+	cov := core.Coverage{
 		"evaluations":                              l.transitions + fullPaths + confirmations,
 		"states":                                   len(l.states),
 		"states_cumulative_by_depth":               l.perDepth,
@@ -1118,15 +1167,19 @@ func main() {
 		"violation_product_transitions_by_fault":   byFault,
 		"start_states":                             genesis,
 		"crosscheck_full_enumeration":              cross,
-		"rule":                                     "every sequence of ≤ max_sequence_length steps; a step = one of 24 requests {proposal,prevote,precommit}×H{1,2}×R{0,1}×block{A,B} with one fault variant: none | process death before the .bak write / .new write / rename of WriteFileAtomic | process death after the rename before the signature is handed out | injected error at each of the three operations; each non-death variant with and without kill+restart of the idle process afterwards (variants whose point the request does not reach are identical to 'none' and not repeated); start states = clean creation and creation interrupted at each of its two write points then re-run. Executed breadth-first on the real PrivValidator with canonical-state deduplication (state = in-memory watermark+bytes+signature, the same of the signer file, existence and relation-to-file of .bak/.new, other files); the ledger oracle is run on the product of the extracted transitions with one monitor per (H,R,step) slot; every counterexample is re-executed from scratch with the full ledger before it is reported. distinct_nontrivial = distinct (request type, relation of request to watermark, fault, outcome) classes observed",
+		"rule":                                     "every sequence of ≤ max_sequence_length steps; a step = one of 24 requests {proposal,prevote,precommit}×H{1,2}×R{0,1}×block{A,B} with one fault variant: none | process death before the .bak write / .new write / rename of WriteFileAtomic | process death after the rename before the signature is handed out | injected error at each of the three operations; each non-death variant with and without kill+restart of the idle process afterwards (variants whose point the request does not reach are identical to 'none' and not repeated) | torn-file family: after the completed request (signed or refused, i.e. in every reachable signer state) the host crashes and leaves the signer file itself unparsable — truncated to 0 bytes, 1 byte, half, all but the last byte, first byte flipped, last byte flipped — with the .bak/.new leftovers exactly as the code left them, then the node is started again (refusing to start ends the history safely; a node that does start keeps being judged by the ledger oracle on every further request); start states = clean creation and creation interrupted at each of its two write points then re-run. Executed breadth-first on the real PrivValidator with canonical-state deduplication (state = in-memory watermark+bytes+signature, the same of the signer file, existence and relation-to-file of .bak/.new, other files); the ledger oracle is run on the product of the extracted transitions with one monitor per (H,R,step) slot; every counterexample is re-executed from scratch with the full ledger before it is reported. distinct_nontrivial = distinct (request type, relation of request to watermark, fault, outcome) classes observed",
 		"exhaustive":                               true,
-		"bounds":                                   map[string]int{"max_sequence_length": maxLen, "heights": 2, "rounds": 2, "blocks": 2, "requests": nReq, "fault_variants_per_request": 12, "workers": nw},
+		"bounds":                                   map[string]int{"max_sequence_length": maxLen, "heights": 2, "rounds": 2, "blocks": 2, "requests": nReq, "fault_variants_per_request": len(allVariants(0)), "tear_patterns": len(tearPatterns), "workers": nw},
 		"samples":                                  c.samples.List(),
-	}, []string{
-		"crash model (DESIGN 6.4): process death between file operations; a completed write/rename is visible after restart; no torn or reordered writes",
+	}
+	assumptions := []string{
+		"crash model (DESIGN 6.4): process death between file operations; a completed write/rename is visible after restart; no reordered writes; torn-file family: after a completed save the signer file alone is damaged so that it is no JSON document any more (truncations and first/last byte flips) while the leftovers stay intact — damage that keeps the file parseable (a flipped digit) is silent corruption the format cannot detect and is not generated; refusing to start (error or panic of LoadPrivValidator) on a torn file is accepted, after which nothing more is asked of that validator",
 		"a signature counts as having left the signer when SignVote/SignProposal returned nil with the Signature field filled by a signature that verifies for the request, or when that field is already filled at the instant the process dies inside the durable write",
 		"the record 'forbids contradicting' a signature when the file on disk loads with a watermark above its height/round/step, or equal to it with the same sign-bytes",
 		"restart = types.LoadPrivValidator on the signer file, as gemmill/angine.go does; .bak/.new leftovers are whatever the crashes left",
 		"the behaviour of the signer depends only on its canonical state (checked by the merge oracle, by sampled from-scratch replays of checkpointed steps, by from-scratch confirmation of every counterexample and by the un-deduplicated enumeration at the smaller length)",
-	})
+	}
+	cov["not_covered"] = "part (b), concurrent callers of one signer object, is explored by the SCHED part (coverage.sched) without crash or write faults inside the concurrent phase; remote Signer implementations (SetSigner) are not driven; damage of the signer file that keeps it parseable"
+	schedAssumptions := joinSched(run, cov)
+	run.Finish(cov, append(assumptions, schedAssumptions...))
 }
